@@ -99,6 +99,7 @@ func c11Scenarios(tier string) []*h.Scenario {
 		name    string
 		threads [][]h.Step
 		tick    bool
+		nograce bool // with tick: no grace period, so that what a request stops referencing is collectable at once
 		due     time.Duration
 		prefix  func(w *h.World)
 		repos   []string
@@ -155,6 +156,9 @@ func c11Scenarios(tier string) []*h.Scenario {
 		// the repository was idle for longer than the age of its cache entry: the eviction (which collects the repository
 		// and then drops the entry) runs while the two requests arrive
 		{name: "two-tag-pushes-vs-eviction-of-the-idle-repository", due: 72 * time.Minute, threads: [][]h.Step{{putMan(repo, "I1", "t")}, {putMan(repo, "I1", "t2")}}},
+		// a listing that has taken the index but not yet the response blob, a push that replaces the response, and a
+		// collection that may take the replaced blob: the listing shows the old or the new list, never none
+		{name: "referrers-read-vs-referrer-push-vs-tick-without-grace", tick: true, nograce: true, threads: [][]h.Step{{getRef}, {putMan(repo, "A1", f.Items["A1"].Dig)}}},
 		{name: "two-repositories-vs-tick", tick: true, repos: []string{repo, "q"}, threads: [][]h.Step{{putMan(repo, "I1", "t")}, {pushBlob("q", "c")}}},
 	}
 	if tier == "thorough" {
@@ -215,6 +219,9 @@ func c11Scenarios(tier string) []*h.Scenario {
 				conf.Mod = func(c *config.Config) {
 					c.Storage.GC.Frequency = 15 * time.Minute
 					c.Storage.GC.GracePeriod = time.Hour
+					if d.nograce {
+						c.Storage.GC.GracePeriod = -1
+					}
 				}
 			}
 			out = append(out, &h.Scenario{
